@@ -28,7 +28,24 @@ GATTR = st.dictionaries(st.sampled_from(['name', 'meta', 'tags', 'edge_removal',
 
 def strategy(tier):
     return st.tuples(gen.tiered(tier, max_ops=12, min_ops=3, rejects=False, kinds=KINDS, node_kinds=('int', 'str'), uni=(4, 6)), GATTR,
-                     st.sampled_from(['id', 'id', 'nid', 'name'])).map(lambda x: dict(x[0], gattr=x[1], idkey=x[2]))
+                     st.sampled_from(['id', 'id', 'nid', 'name']), st.sampled_from([None] * 5 + ['np64'])).map(
+        lambda x: dict(x[0], gattr=x[1], idkey=x[2], **({'tkind': x[3]} if x[3] else {})))
+
+
+def nest(n):
+    x = []
+    for _ in range(n):
+        x = [x]
+    return x
+
+
+def exhaustive(tier):
+    cases = []
+    for cls in ('DynGraph', 'DynDiGraph'):
+        for depth in (300, 520):
+            cases.append({'cls': cls, 'removal': True, 'nodes': [0, 1, 2, 3], 'deep': depth, 'idkey': 'id', 'gattr': {},
+                          'ops': [['add', 0, 1, 2, 5], ['add', 1, 0, 3, None], ['add', 2, 2, 4, None], ['node', 3, {'w': [1]}]]})
+    return {'cases': cases, 'bound': '4 fixed graphs whose graph attribute is a list nested 300 / 520 levels deep'}
 
 
 def run_case(case, rec):
@@ -47,8 +64,15 @@ def run_case(case, rec):
         iso_attrs = {'Label': case.get('gattr', {}).get('meta', 0), 'w': ''}
         G.add_node(spare[0], **copy.deepcopy(iso_attrs))
         M.add_node(spare[0], iso_attrs)
-    G.graph.update(copy.deepcopy(case.get('gattr', {})))
-    M.graph = copy.deepcopy(dict(G.graph))
+    if case.get('deep'):
+        # a graph attribute nested hundreds of levels deep: JSON copes with it, so must the round trip (built twice,
+        # iteratively - the harness itself must not recurse over it)
+        G.graph['meta'] = nest(case['deep'])
+        M.graph = dict(G.graph, meta=nest(case['deep']))
+        rec.classify('graph attribute nested %d levels deep' % case['deep'])
+    else:
+        G.graph.update(copy.deepcopy(case.get('gattr', {})))
+        M.graph = copy.deepcopy(dict(G.graph))
     idk = case.get('idkey', 'id')
     if idk != 'id' and M.nodes and len(case['ops']) % 3 == 0:
         # with a custom id key, 'id' is an ordinary attribute name - here even one whose value is the node id
@@ -59,6 +83,8 @@ def run_case(case, rec):
     attrs = dict(id=idk, source='source', target='target')
     ctx = '%s id key %r' % (case['cls'], idk)
     rec.classify('idkey:' + idk)
+    if d.tconv is not None:
+        rec.classify('timestamps given as numpy.int64')
     from ..observe import observe as _obs
     okb, before_obs = safe(_obs, G, d.nodes, M.probes())
     if not okb:
@@ -98,7 +124,7 @@ def run_case(case, rec):
               lambda: '%s default id key after a call with a custom one: %r' % (ctx, data3))
     # ---- rebuild
     back = json.loads(text)
-    ok, H = safe(lambda: json_graph.node_link_graph(copy.deepcopy(back)) if idk == 'id' else json_graph.node_link_graph(copy.deepcopy(back), attrs=attrs))
+    ok, H = safe(lambda: json_graph.node_link_graph(json.loads(text)) if idk == 'id' else json_graph.node_link_graph(json.loads(text), attrs=attrs))
     if rec.check('C11.rebuild.call', ok, lambda: '%s node_link_graph raised %r on %r' % (ctx, H, back)):
         rec.check('C11.rebuild.class', type(H) is type(G), lambda: '%s rebuilt as %r' % (ctx, type(H)))
         okn, hn = safe(lambda: dict(H.nodes(data=True)))
@@ -117,10 +143,10 @@ def run_case(case, rec):
             pass
     # ---- the directed argument
     for arg in (False, True):
-        ok, H2 = safe(lambda: json_graph.node_link_graph(copy.deepcopy(back), directed=arg, attrs=attrs))
+        ok, H2 = safe(lambda: json_graph.node_link_graph(json.loads(text), directed=arg, attrs=attrs))
         if rec.check('C11.directed_arg', ok, lambda: '%s node_link_graph(directed=%r) raised %r' % (ctx, arg, H2)):
             rec.check('C11.directed_arg', H2.is_directed() == d.directed, lambda: '%s directed=%r overrode data[directed]=%r' % (ctx, arg, d.directed))
-        nod = copy.deepcopy(back)
+        nod = json.loads(text)
         del nod['directed']
         if d.directed and not arg:
             # re-reading arcs as undirected pairs may legitimately be rejected by the ordering rule
